@@ -366,3 +366,35 @@ M2('c06-create-scope-http-version-not-normalised', 'C06', 'R19', [{'file': _TH, 
 M2('c06-create-environ-http-version-not-normalised', 'C06', 'R19', [{'file': _TH, 'old': "    http_version = _fixup_http_version(http_version)\n", 'new': "", 'count': 2, 'occurrence': 1}])
 M('c06-create-scope-port-not-converted', 'C06', 'R19', _TH, "        port = int(port)\n", "        pass\n")
 M('c06-create-environ-port-not-converted', 'C06', 'R19', _TH, "        port_str = str(int(port))\n", "        port_str = str(port)\n")
+
+# ------------------------------------------------------------------ wave 9
+# R20 (s9-c06-2): the Host header drops the port exactly when it is the default port of the scheme
+_WSGI_HOST = ("        if scheme == 'https':\n            if port_str != '443':\n                host_header += ':' + port_str\n"
+              "        else:\n            if port_str != '80':\n                host_header += ':' + port_str\n")
+_ASGI_HOST = ("        if scheme == 'https':\n            if port != 443:\n                host_header += ':' + str(port)\n"
+              "        else:\n            if port != 80:\n                host_header += ':' + str(port)\n")
+M('c06-create-environ-host-port-elided-for-80-and-443', 'C06', 'R20', _TH, _WSGI_HOST,
+  "        if port_str not in ('80', '443'):\n            host_header += ':' + port_str\n")
+M('c06-create-scope-host-port-elided-for-80-and-443', 'C06', 'R20', _TH, _ASGI_HOST,
+  "        if port not in (80, 443):\n            host_header += ':' + str(port)\n")
+M('c06-create-environ-host-port-defaults-swapped', 'C06', 'R20', _TH, _WSGI_HOST,
+  "        if port_str != ('80' if scheme == 'https' else '443'):\n            host_header += ':' + port_str\n")
+M('c06-create-scope-host-port-always-kept-for-https', 'C06', 'R20', _TH, _ASGI_HOST,
+  "        if scheme == 'https' or port != 80:\n            host_header += ':' + str(port)\n")
+M('c06-create-environ-host-port-never-sent', 'C06', 'R20', _TH, _WSGI_HOST, "")
+# R21 (s9-c06-3): the one-shot conductor serves the request between lifespan startup and shutdown
+_CONDUCT_START = ("        await _wait_for_startup(lifespan_event_collector.events)\n\n"
+                  "        task_req = asyncio.create_task(\n            app(http_scope, req_event_emitter, resp_event_collector)\n        )\n")
+M('c06-conductor-request-task-before-startup-wait', 'C06', 'R21', _TC, _CONDUCT_START,
+  "        task_req = asyncio.create_task(\n            app(http_scope, req_event_emitter, resp_event_collector)\n        )\n\n"
+  "        await _wait_for_startup(lifespan_event_collector.events)\n")
+M('c06-conductor-startup-wait-only-for-streamed-results', 'C06', 'R21', _TC, _CONDUCT_START,
+  "        if _stream_result:\n            await _wait_for_startup(lifespan_event_collector.events)\n\n"
+  "        task_req = asyncio.create_task(\n            app(http_scope, req_event_emitter, resp_event_collector)\n        )\n")
+M('c06-conductor-shutdown-released-before-request-awaited', 'C06', 'R21', _TC,
+  "        req_event_emitter.disconnect()\n        await task_req\n\n        # NOTE(kgriffs): Notify lifespan_event_emitter that it is OK\n"
+  "        #   to proceed.\n        async with shutting_down:\n            shutting_down.notify()\n\n",
+  "        req_event_emitter.disconnect()\n\n        # NOTE(kgriffs): Notify lifespan_event_emitter that it is OK\n"
+  "        #   to proceed.\n        async with shutting_down:\n            shutting_down.notify()\n\n        await task_req\n")
+M('c06-asgi-conductor-enter-does-not-wait-for-startup', 'C06', 'R21', _TC,
+  "        await _wait_for_startup(self._lifespan_event_collector.events)\n\n        return self\n", "        return self\n")
